@@ -653,6 +653,11 @@ static void wait_entry(struct kwait_info *wi)
 			}
 		}
 	}
+	/* C01: nothing of an unregistered descriptor is left with the kernel (an epoll entry would
+	 * carry a pointer to the freed iv_fd) */
+	for (i = 0; i < nK; i++)
+		if (!F[i].registered && F[i].kfd > 0)
+			sx_assert(!interest_for(wi, &F[i], B_ERR), "C01.kernel-registration-left-after-unregister");
 	/* C02: every wanted band of every registered fd is in the kernel's interest set */
 	for (i = 0; i < nK; i++) {
 		if (!F[i].registered)
